@@ -28,4 +28,11 @@ int main(int argc, char *argv[]) {
     chained_hash = util::MurmurHashNative(&buffer[0], count, chained_hash);
   }
   std::cout << std::hex << chained_hash << '\n';
+  // std::cout never throws: a failed write only shows in the stream state.
+  std::cout.flush();
+  if (!std::cout) {
+    std::cerr << "Error writing to stdout\n";
+    return 1;
+  }
+  return 0;
 }
